@@ -274,8 +274,12 @@ func verifyFunctionOnce(l *Loaded, specs *Specs, ct *Contract, localAlias map[st
 		w.bindName(k, v)
 	}
 	// parameters
-	for _, p := range fn.Params {
-		v := &Val{T: w.sc.declare("in."+p.Name(), w.sortOf(p.Type())), Typ: p.Type()}
+	for pi, p := range fn.Params {
+		pname := p.Name()
+		if pname == "_" {
+			pname = fmt.Sprintf("_%d", pi)
+		}
+		v := &Val{T: w.sc.declare("in."+pname, w.sortOf(p.Type())), Typ: p.Type()}
 		fr.vals[p] = v
 		fr.params[w.contractNameOf(p.Name())] = v
 		w.assumeLoaded(st, v)
